@@ -13,6 +13,9 @@ CHECKS = {
  "C08": ("exhaustive enumeration of duration spellings and values against math/big",
          "ParseDuration is run on every 1-, 2- and 3-component spelling over a per-unit boundary ladder (around MaxInt64/unit and 2^64/unit, both signs) and compared with exact big-integer sums; FormatDuration on every nanosecond value in a dense interval around zero and on every k*unit, k*unit±1 of the ladder; the same spellings as literals in 17 statement slots. Exhaustive inside the stated alphabets.",
          "Trusts math/big. Magnitudes between the ladder points are not visited; a rejected in-range spelling is not counted as a violation (C01 covers acceptance).", "3/C08"),
+ "C09": ("exhaustive differential enumeration of expression trees: Reduce vs Eval",
+         "Every well-typed expression tree of depth <= 2 over all 16 operators and boundary values of the five kinds, each leaf a literal, a variable bound at Reduce time or a variable bound only at Eval time (all splits of the assignment), is folded by the real Reduce and evaluated by the real Eval before and after; results must agree in dynamic type and value, and reducing twice must equal reducing once. Time arithmetic is compared with exact int64 nanosecond arithmetic over instants x durations x zones.",
+         "Well-typedness is decided by the generator's own typing rule (documented in the evidence assumptions). Trees deeper than 2 and values outside the tables are not visited.", "3/C09"),
 }
 ALL = ["C%02d" % i for i in range(1, 21)]
 NOT_YET = "check not built yet in this revision of /verif (work in progress; see DESIGN.md section 3 for the planned bounded-exhaustive check)"
